@@ -38,3 +38,14 @@ __CPROVER_ensures(list_swap_post())
 __CPROVER_assigns(__CPROVER_object_whole(a); __CPROVER_object_whole(b);
                   gv_a_last != 0: IT(gv_a_last)->next; gv_b_last != 0: IT(gv_b_last)->next)
 ;
+void* w_List_removeFront(void* l)
+__CPROVER_ensures(list_remove_post(__CPROVER_return_value))
+__CPROVER_assigns(__CPROVER_object_whole(l); __CPROVER_object_whole(LL(l)->_begin); IT(gv_N)->prev;
+                  g_ctor, g_dtor, g_last_ctor, g_last_dtor)
+;
+void* w_List_removeBack(void* l)
+__CPROVER_ensures(list_remove_post(__CPROVER_return_value))
+__CPROVER_assigns(__CPROVER_object_whole(l); __CPROVER_object_whole(LL(l)->endItem.prev);
+                  gv_Q != 0: IT(gv_Q)->next;
+                  g_ctor, g_dtor, g_last_ctor, g_last_dtor)
+;
